@@ -181,7 +181,33 @@ fn families() -> Vec<Family> {
         fam("MaybeEmpty<i32>", MaybeEmpty::Value(1i32), Some(tc_of::<MaybeEmpty<i32>>)),
         fam("CqlValue::Int", CqlValue::Int(1), Some(tc_of::<CqlValue>)),
         fam("CqlValue::Text", CqlValue::Text(s()), Some(tc_of::<CqlValue>)),
+        // dynamic UDT values with different field sets (a: int, b: text, x: int)
+        fam("CqlValue::Udt{a,b}", udt_val(&["a", "b"]), Some(tc_of::<CqlValue>)),
+        fam("CqlValue::Udt{b,a}", udt_val(&["b", "a"]), Some(tc_of::<CqlValue>)),
+        fam("CqlValue::Udt{a}", udt_val(&["a"]), Some(tc_of::<CqlValue>)),
+        fam("CqlValue::Udt{a,x}", udt_val(&["a", "x"]), Some(tc_of::<CqlValue>)),
+        fam("CqlValue::Udt{a,b,x}", udt_val(&["a", "b", "x"]), Some(tc_of::<CqlValue>)),
+        fam("Vec<CqlValue::Udt{a,x}>", vec![udt_val(&["a", "x"])], Some(tc_of::<Vec<CqlValue>>)),
     ]
+}
+
+/// A dynamic UDT value ks.u with the given fields: a = 1 (int), b = "a" (text), anything else = 7 (int).
+fn udt_val(names: &[&str]) -> CqlValue {
+    CqlValue::UserDefinedType {
+        keyspace: abs::UDT_KEYSPACE.to_string(),
+        name: abs::UDT_NAME.to_string(),
+        fields: names
+            .iter()
+            .map(|n| {
+                let v = match *n {
+                    "a" => CqlValue::Int(1),
+                    "b" => CqlValue::Text("a".to_string()),
+                    _ => CqlValue::Int(7),
+                };
+                (n.to_string(), Some(v))
+            })
+            .collect(),
+    }
 }
 
 const PREFILL: &[u8] = &[0xAB, 0xAB, 0xAB, 0xAB, 0xAB];
@@ -359,6 +385,12 @@ fn run_op(sv: &mut SerializedValues, op: &Value) -> Result<OpOutcome, String> {
             };
             let val: Vec<CqlValue> = vec![abs::sample_cql(e), wrong, abs::sample_cql(e)];
             Ok(done(sv.add_value(&val, &t.to_column_type())))
+        }
+        // a value whose refusal comes late: a dynamic UDT value {a, x} bound to a UDT column (a int, b text) is found to
+        // have an unknown field only after the cell for `a` (and the null for `b`) were written
+        "late_typeck" => {
+            let t = T::Udt(vec![("a".to_string(), T::Native("int".to_string())), ("b".to_string(), T::Native("text".to_string()))]);
+            Ok(done(sv.add_value(&udt_val(&["a", "x"]), &t.to_column_type())))
         }
         "toolarge" => Ok(done(sv.add_value(&WritesThenFails, &ColumnType::Native(NativeType::Blob)))),
         "fill" => {
